@@ -18,16 +18,27 @@ def repo_under_test():
     return lib.REPO
 
 
+GEN_FILE = {"t6_consts": "Consts.lean", "t3_grammar": "Grammar.lean", "t5_frames": "FrameSites.lean"}
+
+
 def run_translators(names):
-    """regenerates lean/DiscretModel/Gen/*.lean from the source tree; returns a list of problems"""
+    """regenerates lean/DiscretModel/Gen/*.lean from the source tree; returns a list of problems.
+    A translator that cannot read its source replaces its Gen file by one that does not compile, so that
+    the obligations depending on it are reported broken instead of being checked against a stale table."""
     problems = []
     repo = repo_under_test()
     for n in names:
         try:
             mod = __import__(n)
             mod.main(repo)
-        except Exception as e:  # TranslateError or a crash of the translator: the obligation is broken
+        except Exception as e:  # TranslateError or a crash of the translator
             problems.append("%s: %s" % (n, e))
+            try:
+                import common
+                common.write_if_changed(GEN_FILE[n], "/-! translator %s FAILED on %s: %s -/\nexample : False := by decide\n" % (
+                    n, repo, str(e).replace("-/", "- /")))
+            except Exception:
+                pass
     return problems
 
 
@@ -222,7 +233,7 @@ class C15(Cfg):
 
     def streams(self, tier, seed, work, dv):
         res = []
-        plan = [("dm", 1200, 1), ("db", 45, 3)] if tier == "quick" else [("dm", 40000, 1), ("db", 500, 10)]
+        plan = [("dm", 1200, 1), ("db", 45, 3)] if tier == "quick" else [("dm", 40000, 1), ("db", 200, 10)]
         for kind, n, parts in plan:
             for p in range(parts):
                 path = os.path.join(work, "%s_%d.ops" % (kind, p))
